@@ -36,23 +36,23 @@ pub fn f8_iter<const M: usize, const K: usize>() {
         // raw iterator
         let mut n = 0usize;
         for (p, len) in bump.iter_allocated_chunks_raw() {
-            assert!(n < K, "[C10] raw iteration yields more items than chunks held (sentinel yielded?)");
-            assert!(p as usize == exp_ptr[n] && len == exp_len[n], "[C10] raw iteration item is not (finger, footer - finger) of the n-th newest chunk");
-            assert!(p as usize >= exp_lo[n] && p as usize + len <= exp_hi[n], "[C10] raw iteration item not inside its chunk");
+            vassert!(n < K, "NEVER: [C10] raw iteration yields more items than chunks held (sentinel yielded?)");
+            vassert!(p as usize == exp_ptr[n] && len == exp_len[n], "NEVER: [C10] raw iteration item is not (finger, footer - finger) of the n-th newest chunk");
+            vassert!(p as usize >= exp_lo[n] && p as usize + len <= exp_hi[n], "NEVER: [C10] raw iteration item not inside its chunk");
             n += 1;
         }
-        assert!(n == K, "[C10] raw iteration does not yield one item per chunk");
+        vassert!(n == K, "NEVER: [C10] raw iteration does not yield one item per chunk");
         // safe iterator yields the same sequence
         let mut m = 0usize;
         for s in bump.iter_allocated_chunks() {
-            assert!(m < K, "[C10] iteration yields more items than chunks held");
-            assert!(s.as_ptr() as usize == exp_ptr[m] && s.len() == exp_len[m], "[C10] safe and raw iteration differ");
+            vassert!(m < K, "NEVER: [C10] iteration yields more items than chunks held");
+            vassert!(s.as_ptr() as usize == exp_ptr[m] && s.len() == exp_len[m], "NEVER: [C10] safe and raw iteration differ");
             m += 1;
         }
-        assert!(m == K, "[C10] iteration does not yield one slice per chunk");
+        vassert!(m == K, "NEVER: [C10] iteration does not yield one slice per chunk");
         // iteration is read-only
-        assert!(snap(cur.as_ptr()) == s0 && cur.as_ref().ptr.get().as_ptr() as usize == exp_ptr[0], "[C10] iteration modified the arena");
-        assert!(empty_is_pristine(), "[C20] shared static sentinel modified");
+        vassert!(snap(cur.as_ptr()) == s0 && cur.as_ref().ptr.get().as_ptr() as usize == exp_ptr[0], "NEVER: [C10] iteration modified the arena");
+        vassert!(empty_is_pristine(), "NEVER: [C20] shared static sentinel modified");
         kani::cover!(K < 2 || (exp_len[0] > 0 && exp_len[1] > 0), "REACH: two non-empty slices");
         kani::cover!(exp_len[0] == 0, "REACH: empty newest chunk");
         kani::cover!(exp_len[0] == USABLE[K - 1], "REACH: full newest chunk");
